@@ -13,6 +13,7 @@ pub mod reconnect;
 pub mod shutdown;
 pub mod health;
 pub mod web;
+pub mod richerr;
 
 /// Shared event recorder so that events survive a panic or hang of the run.
 #[derive(Clone, Default)]
@@ -33,6 +34,7 @@ pub fn gen(lab: &str, seed: u64, tier: &str) -> Vec<Value> {
         "meta" => meta::gen(seed, tier),
         "intercept" => intercept::gen(seed, tier),
         "deadline" => deadline::gen(seed, tier),
+        "richerr" => richerr::gen(seed, tier),
         _ => { eprintln!("unknown lab {lab}"); std::process::exit(2) }
     }
 }
@@ -50,6 +52,7 @@ fn run_one(lab: &str, stim: &Value, rec: &Rec) {
         "shutdown" => shutdown::run(stim, rec),
         "health" => health::run(stim, rec),
         "web" => web::run(stim, rec),
+        "richerr" => richerr::run(stim, rec),
         _ => { eprintln!("unknown lab {lab}"); std::process::exit(2) }
     }
 }
